@@ -222,7 +222,13 @@ def _to_rat(t, atom, depth=0):
     if t.op == "call" and call_name(t) in ("builtins.float", "builtins.int", "np.float64", "np.int64") and len(t.a[1]) == 1:
         return _to_rat(t.a[1][0], atom, depth + 1)
     if t.op == "call" and call_name(t) in ("astype", "np.asarray", "np.array", "np.asanyarray") and t.a[1]:
-        return _to_rat(t.a[1][0], atom, depth + 1)  # a cast of whole numbers keeps the numbers
+        # a cast of whole numbers to a wide type keeps the numbers; in a narrow one the products below wrap around
+        dts = list(t.a[1][1:2]) + [v for k, v in t.a[2] if k == "dtype"]
+        for dt in dts:
+            txt = (dt.a[0] if dt.op in ("ext", "builtin", "const") else "?")
+            if str(txt).split(".")[-1] not in ("int", "int64", "float", "float64", "longlong", "int_", "intp", "double", "float_"):
+                raise _NotAlgebraic("cast to %s" % txt)
+        return _to_rat(t.a[1][0], atom, depth + 1)
     if t.op == "call" and call_name(t) == "scipy.special.comb" and len(t.a[1]) >= 2 and tm.is_const(t.a[1][1], 2):
         y = _to_rat(t.a[1][0], atom, depth + 1)
         return (y * y - y) / Rat.const(2)
